@@ -393,22 +393,33 @@ def _loop_shape():
     tree = file_ast(P.__file__)[0]
     fn = next(n for n in _ast.walk(tree) if isinstance(n, _ast.FunctionDef) and n.name == 'ast')
     loops = [n for n in _ast.walk(fn) if isinstance(n, _ast.While)]
-    main = [w for w in loops if isinstance(w.test, _ast.Name) and w.test.id == 'expr']
-    out = [dict(name='T:loop/main-loop-is-while-expr', kind='S', ok=len(main) == 1, detail='while loops over expr: %d' % len(main), witness=None)]
+
+    def shrinks(node, var):
+        """node is `var = var[<x>.end_match:]` (any names)"""
+        return (isinstance(node, _ast.Assign) and len(node.targets) == 1 and isinstance(node.targets[0], _ast.Name) and node.targets[0].id == var
+                and isinstance(node.value, _ast.Subscript) and isinstance(node.value.value, _ast.Name) and node.value.value.id == var
+                and isinstance(node.value.slice, _ast.Slice) and node.value.slice.upper is None and node.value.slice.step is None
+                and isinstance(node.value.slice.lower, _ast.Attribute) and node.value.slice.lower.attr == 'end_match')
+    # the tokeniser loop: `while <text>:` whose body consumes a prefix of <text> (the variable may have any name)
+    main = [w for w in loops if isinstance(w.test, _ast.Name) and any(shrinks(n, w.test.id) for n in _ast.walk(w))]
+    out = [dict(name='T:loop/main-loop-is-while-expr', kind='S', ok=len(main) == 1, detail='tokeniser loops found: %d' % len(main), witness=None)]
     if len(main) == 1:
         w = main[0]
+        var = w.test.id
         body_ok = len(w.body) == 1 and isinstance(w.body[0], _ast.For) and bool(w.body[0].orelse) and \
             isinstance(w.body[0].orelse[-1], _ast.Raise)
         out.append(dict(name='T:loop/body-is-for-over-filters-whose-else-raises', kind='S', ok=body_ok, detail=_ast.dump(w.body[0])[:200], witness=None))
-        assigns = [n for n in _ast.walk(w) if isinstance(n, _ast.Assign) and any(isinstance(t, _ast.Name) and t.id == 'expr' for t in n.targets)]
-        shrink = [a for a in assigns if _ast.unparse(a.value).replace(' ', '') == 'expr[token.end_match:]']
+        assigns = [n for n in _ast.walk(w) if isinstance(n, (_ast.Assign, _ast.AugAssign)) and any(
+            isinstance(t, _ast.Name) and t.id == var for t in (n.targets if isinstance(n, _ast.Assign) else [n.target]))]
+        shrink = [a for a in assigns if shrinks(a, var)]
         out.append(dict(name='T:loop/expr-only-changes-by-dropping-the-consumed-prefix', kind='S', ok=len(assigns) == len(shrink) == 1,
-                        detail='assignments to expr in the loop: %r' % [_ast.unparse(a) for a in assigns], witness=None))
+                        detail='assignments to the text variable in the loop: %r' % [_ast.unparse(a) for a in assigns], witness=None))
         tries = [n for n in _ast.walk(w) if isinstance(n, _ast.Try)]
         brk_ok = False
         if len(tries) == 1:
-            srcs = [_ast.unparse(x).replace(' ', '') for x in tries[0].body]
-            brk_ok = srcs[-1] == 'break' and 'expr=expr[token.end_match:]' in srcs and srcs.index('expr=expr[token.end_match:]') > 0
+            body = tries[0].body
+            pos = [i for i, x in enumerate(body) if shrinks(x, var)]
+            brk_ok = bool(pos) and pos[0] > 0 and isinstance(body[-1], _ast.Break)
         out.append(dict(name='T:loop/break-only-after-the-prefix-was-dropped', kind='S', ok=brk_ok, detail=repr([_ast.unparse(x) for t in tries for x in t.body])[:300], witness=None))
     bad = [f.__name__ for f in P.Parser.filters if f.__init__ is not Token.__init__]
     out.append(dict(name='T:loop/no-filter-class-overrides-the-constructor', kind='S', ok=not bad, detail='overriding: %r' % bad, witness=None))
